@@ -100,6 +100,15 @@ class Ctx:
         self.files = os.path.join(self.scr, "files")
         os.makedirs(self.files)
         self.h5v = None
+        # replay files of earlier runs of this property are stale
+        rdir = os.path.join(ROOT, "replays")
+        if os.path.isdir(rdir) and not os.environ.get("H5V_KEEP_REPLAYS"):
+            for f in os.listdir(rdir):
+                if f.startswith(prop + "-") and f.endswith(".json"):
+                    try:
+                        os.remove(os.path.join(rdir, f))
+                    except OSError:
+                        pass
         self.tlc_runs = []
         self.nmeta = 0
         self.workers = int(os.environ.get("H5V_WORKERS", str(os.cpu_count() or 4)))
@@ -402,6 +411,9 @@ def report(ctx, bad, cases_by_id, trace_path, max_replays=8):
             k = b.get("diag", "?")
             if isinstance(b.get("exp"), dict) and "cls" in b["exp"]:
                 k += " cls=%s size=%s sign=%s" % (b["exp"].get("cls"), b["exp"].get("size"), b["exp"].get("sign"))
+            for extra in ("path", "strided", "spans", "api", "rank", "fmt", "class", "indirect"):
+                if extra in b:
+                    k += " %s=%s" % (extra, b[extra])
             if "collides" in b:
                 k += " collides=%s" % b["collides"]
             if isinstance(b.get("cfg"), dict):
